@@ -21,3 +21,4 @@ REGISTRY["ark_ops"] = ("arkcurve", "ops")
 REGISTRY["ark_element"] = ("arkcurve", "element")
 REGISTRY["ark_elligator"] = ("arkcurve", "elligator")
 REGISTRY["min_element"] = ("mincurve", "element")
+REGISTRY["consts"] = ("consts", None)
